@@ -182,6 +182,9 @@ func (c *Ctx) checkBestRecordReplaced(rule string, r *fnRef) int {
 					if v == ssa.Value(p) {
 						return // not updated in the branch
 					}
+					if vi, isInstr := v.(ssa.Instruction); isInstr && !region[vi.Block()] {
+						return // produced before the branch (a loop counter advanced in the header), not by it
+					}
 					n++
 					name := "best-record field " + p.Comment
 					self := false
